@@ -61,6 +61,23 @@ def collect_plans(outs):
             prefixes.add(json.dumps(h[:4] + [h[4][:i]], sort_keys=True))
     return {k: v for k, v in by.items() if k not in prefixes}
 
+def features(p):
+    """Kinds of steps in a plan: used to make the sample of replayed histories cover all of them."""
+    f = set()
+    prev_open = False
+    given = 0
+    for o in p["ops"]:
+        if o["k"] == "op":
+            f.add("%s:%s:%s" % (o["a"], o["ret"], "data" if o["n"] else "nodata"))
+            if o["ret"] == "STREAM_END" and o["a"] != "RUN":
+                f.add("%s:done:%s" % (o["a"], "new" if o["given"] > given else "nonew"))
+            prev_open = o["open"]; given = o["given"]
+        else:
+            t = o["target"]
+            f.add("update:%s:%s:%s%s" % (o["ret"], "open" if prev_open else "closed",
+                                          "samepre" if t["pre"] == p["chain"]["pre"] else "otherpre", ":" + t["props"]))
+    return f
+
 # ------------------------------------------------------------------------------------------------ (R) replay
 def choose_sizes(p, rng, grant):
     nunits = sum(o["n"] for o in p["ops"] if o["k"] == "op") + 1
@@ -82,6 +99,9 @@ def make_history(p, rng, grant=None):
     u = choose_sizes(p, rng, grant)
     ops = [dict(k="op", a=o["a"], n=o["n"]) if o["k"] == "op" else dict(k="update", target=o["target"])
            for o in p["ops"]]
+    # the application always finishes the stream with some more input: "the whole stream still decodes to the whole
+    # input".  Its outcome is decided by the contract (4): STREAM_END unless an earlier call was refused fatally.
+    ops.append(dict(k="op", a="FINISH", n=1, extra=True))
     return dict(enc=p["enc"], chain=p["chain"], check=p["check"], grant=grant, bsize=p["bsize"], unit=u, ops=ops)
 
 def observed(h, res):
@@ -150,13 +170,33 @@ def compare(ctx, p, preds, h, res):
                         errs.append(("replay:decodable:%s:%s:%s" % (j, h["enc"], what),
                                      "step %d %s completed: model says %d bytes decodable, %s decoded %d (%s)"
                                      % (i, what, a[2] * u, j, o["check"][j], o["check"])))
-        # Blocks of the final output against the model's index at the last step
+        # the closing FINISH
+        if len(obs) == len(pr) + 1:
+            fatal = any(x[0] == "op" and x[1] == "OPTIONS_ERROR" for x in pr)
+            ended = any(x[0] == "op" and x[1] == "STREAM_END" and p["ops"][i]["a"] == "FINISH" for i, x in enumerate(pr))
+            want = "PROG_ERROR" if fatal and not ended else "STREAM_END"
+            if obs[-1][1] != want:
+                errs.append(("replay:final_finish:%s:%s" % (h["enc"], obs[-1][1]),
+                             "closing LZMA_FINISH returned %s, expected %s" % (obs[-1][1], want)))
+            fin_total = (pr[-1][2] if pr and pr[-1][0] == "op" else max([x[2] for x in pr if x[0] == "op"] + [0])) * u
+            o = res["ops"][-1]
+            if want == "STREAM_END" and not ended and obs[-1][1] == want:
+                for j in ("lib", "glue"):
+                    if o.get("check", {}).get(j) != o["given"]:
+                        errs.append(("replay:decodable:%s:%s:FINISH" % (j, h["enc"]),
+                                     "finished stream: %d bytes accepted, %s decoded %s" % (o["given"], j, o.get("check"))))
+        # Blocks of the output against the model's index at the last modelled step (before the closing FINISH)
         last = pr[-1] if pr else None
         if last and last[0] == "op" and last[3] != "null" and h["enc"] in ("stream", "mt"):
             want = [(n * u, pre) for n, pre in json.loads(last[3])]
             got = [(n, pre) for n, pre in closed]
-            if [w[1] for w in want] != [g[1] for g in got] or any(g[0] is not None and g[0] != w[0] for w, g in zip(want, got)):
-                errs.append(("replay:blocks:%s" % h["enc"], "Blocks in the output %s, model %s" % (got, want)))
+            head = got[:len(want)]
+            if len(head) != len(want) or [w[1] for w in want] != [g[1] for g in head] \
+               or any(g[0] is not None and g[0] != w[0] for w, g in zip(want, head)) \
+               or (h["enc"] == "stream" and len(got) > len(want) + 1):
+                errs.append(("replay:blocks:%s" % h["enc"],
+                             "Blocks in the final output %s; the model had closed %s before the closing FINISH" % (got, want)))
+        errs = errs[:1]          # what follows the first divergence of a history is a consequence of it
         if best is None or len(errs) < len(best):
             best = errs
         if not errs:
@@ -182,6 +222,10 @@ class Worker:
             self.start()
         try:
             self.p.stdin.write(json.dumps(dict(hist=hist, seed=seed)) + "\n"); self.p.stdin.flush()
+            r, _, _ = select.select([self.p.stdout], [], [], 180)
+            if not r:
+                self.p.kill(); self.p.wait(); self.p = None
+                return dict(crash=True, rc="hang", stderr="HANG: no answer within 180 s")
             line = self.p.stdout.readline()
         except BrokenPipeError:
             line = ""
@@ -202,6 +246,8 @@ class Worker:
 def crash_key(h, err):
     """Stable key for a crash: sanitizer / assertion headline."""
     import re
+    if err.startswith("HANG"):
+        return "hang:%s" % h["enc"]
     m = re.search(r"Assertion `([^']*)' failed", err)
     if m:
         return "crash:assert:%s" % re.sub(r"[^A-Za-z0-9_>.=!<-]+", "_", m.group(1))[:60]
@@ -371,7 +417,11 @@ def cli_block_list(ctx, cli, c12drv, lz):
             "--filters1=lzma2:dict=64KiB,lc=3,lp=0,pb=2,mf=hc4,mode=fast,nice=32",
             "--filters2=delta:dist=%d lzma2:dict=64KiB,lc=1,lp=1,pb=1,mf=bt4,mode=normal,nice=64" % c12drv.DELTA_DIST,
             "--block-list=" + ",".join("%d:%d" % (c, s) for c, s in zip(chains, sizes)), path]
-    r = subprocess.run(args, stdout=subprocess.PIPE, stderr=subprocess.PIPE, env=_xz_env(), timeout=120)
+    try:
+        r = subprocess.run(args, stdout=subprocess.PIPE, stderr=subprocess.PIPE, env=_xz_env(), timeout=60)
+    except subprocess.TimeoutExpired:
+        ctx.violation("cli:block-list:hang", "xz did not finish within 60 s: %s" % " ".join(args[1:-1]), dict(kind="cli", args=args))
+        return None
     if r.returncode != 0:
         ctx.violation("cli:block-list:exit", "xz exit status %s: %s" % (r.returncode, r.stderr[-500:]), dict(kind="cli", args=args))
         return None
@@ -432,9 +482,31 @@ def trace_key(label, e, idx):
         return "trace:%s:Update:%s" % (label.split(":")[0], e.get("ret"))
     return "trace:%s:%s" % (label.split(":")[0], what)
 
+def replay_one(ctx, so):
+    obj = json.load(open(ctx.replay)).get("replay") or {}
+    if obj.get("kind") != "history":
+        ctx.log("replay file has no executable history (kind=%s)" % obj.get("kind"))
+        return ctx.finish(rule="replay")
+    w = Worker(so); w.workdir = ctx.workdir
+    res = w.run(obj["history"], obj.get("seed", 1))
+    w.stop()
+    if res.get("crash"):
+        ctx.violation(crash_key(obj["history"], res["stderr"]), res["stderr"][-2000:], obj)
+    else:
+        for o in res["ops"]:
+            ctx.log("   ", o)
+        ctx.log("tokens:", res["toks"])
+        for key, detail in res["problems"]:
+            ctx.violation(key, detail, obj)
+        rej = tracev.validate(ctx, "TraceXzStreamEnc", [("replay:0", res["events"])], trace_key, maxl=True)
+    ctx.case()
+    return ctx.finish(rule="replay of one recorded history")
+
 def run(ctx):
     from harness.pydrv import lz, c12drv
     L = build.lib("asan")
+    if ctx.replay:
+        return replay_one(ctx, L["so"])
     lz.load(L["so"])
     cli = build.cli()
     quick = ctx.quick
@@ -442,8 +514,15 @@ def run(ctx):
     pool = ThreadPoolExecutor(6)
     mc_jobs = [(cfg, pool.submit(tlc.run, mod, cfg=cfg, workers=w, timeout=240 if quick else 1400, coverage=False))
                for mod, cfg, w in (QUICK_MC if quick else THOROUGH_MC)]
+    # non-vacuity of the contract: deliberately wrong variants of the model (Bugs constant) must violate it
+    bug_names = ["bcj_accepts_sync", "no_state_reset_after_uncompressed"] if quick else \
+        ["bcj_accepts_sync", "no_state_reset_after_uncompressed", "empty_block_on_full_flush", "update_mid_chunk",
+         "stream_update_mid_block", "lzma2_init_ignores_unencoded", "block_sync_is_finish", "mt_update_mid_block",
+         "lzma1_accepts_sync"]
+    bug_jobs = [(b, pool.submit(tlc.run, "MCXzStreamEnc", cfg="MCXzStreamEncBug_%s.cfg" % b, workers=1, timeout=600))
+                for b in bug_names]
     # (G)
-    gen_bfs = pool.submit(tlc.run, "GenXzStreamEnc", cfg="GenXzStreamEnc.cfg", workers=1, timeout=900)
+    gen_bfs = pool.submit(tlc.run, "GenXzStreamEnc", cfg="GenXzStreamEncQ.cfg" if quick else "GenXzStreamEnc.cfg", workers=3, timeout=900)
     gen_sim = pool.submit(tlc.run, "GenXzStreamEnc", cfg="GenXzStreamEncSim.cfg", workers=1, timeout=300,
                           simulate=150 if quick else 1500, depth=260, seed=ctx.seed)
     # CLI plans meanwhile
@@ -459,7 +538,7 @@ def run(ctx):
     ctx.add_tlc("GenXzStreamEnc(simulate)", gs)
     bfs = collect_plans([g.out])
     sim = collect_plans([gs.out])
-    if len(bfs) < 5000 or len(sim) < 20:
+    if len(bfs) < 3000 or len(sim) < 20:
         raise MachineryError("plan generation produced only %d + %d histories" % (len(bfs), len(sim)))
     nondet = sum(1 for _, pr in bfs.values() if len(pr) > 1)
     ctx.log("GenXzStreamEnc: %d maximal histories (bfs, %d with more than one possible outcome), %d (simulate)"
@@ -471,10 +550,27 @@ def run(ctx):
         groups[(p["enc"], p["chain"]["pre"], p["chain"]["lz"], p["bsize"])].append(k)
     per = (32 if quick else 700)
     chosen = []
+    featcount = collections.Counter()
     for gk in sorted(groups):
         ks = groups[gk]
         ctx.rng.shuffle(ks)
-        chosen += [bfs[k] for k in ks[:per]]
+        # every kind of step (action x outcome, update x outcome x position) several times, then at random
+        need = collections.Counter()
+        pick = []
+        rest = []
+        for k in ks:
+            f = features(bfs[k][0])
+            if any(need[t] < (2 if quick else 25) for t in f) and len(pick) < per:
+                pick.append(k)
+                for t in f:
+                    need[t] += 1
+            else:
+                rest.append(k)
+        pick += rest[:max(0, per - len(pick))]
+        for k in pick:
+            featcount.update(features(bfs[k][0]))
+        chosen += [bfs[k] for k in pick]
+    ctx.extra["sampled_step_kinds"] = dict(sorted(featcount.items()))
     ctx.rng.shuffle(chosen)
     simk = sorted(sim)
     ctx.rng.shuffle(simk)
@@ -494,6 +590,12 @@ def run(ctx):
         ctx.log(cfg, r.summary())
         if r.violation:
             ctx.violation("model:%s:%s" % (cfg[:-4], r.violation), r.out[-4000:], dict(kind="tlc_counterexample", cfg=cfg))
+    for b, fut in bug_jobs:
+        r = fut.result()
+        ctx.add_tlc("MCXzStreamEncBug_" + b, r)
+        if not r.violation:
+            raise MachineryError("model variant %s does not violate the contract: the contract is vacuous there\n%s" % (b, r.out[-1500:]))
+    ctx.log("model variants violating the contract as they must: %s" % ", ".join(bug_names))
     pool.shutdown()
     ctx.assumptions += [
         "data is abstracted to 'at least one byte' per pipeline stage; byte conservation between stages is assumed",
